@@ -114,6 +114,7 @@ struct GenParams {
   bool call_heavy = false;        // C19 / C16
   bool init_vars = false;         // routines start by giving some variables non-zero values, so that loops iterate
   bool stop_in_callee = false;    // a STOP statement is placed inside a called program
+  int locality = 0;               // percent: a statement reuses the variable of the previous one; IFs come in chains on one variable
   int jump_into_loop = 0;         // percent of routine bodies that get an explicit "jump into a (nested) loop body" pattern
 };
 Ast generate_ast(Rng &rng, const GenParams &gp);
